@@ -15,13 +15,16 @@ MANIFEST = dict(
          "any label, the UTF-8 mark does not (refuted, D14), --encoding none is the identity with the mark "
          "kept, slices/mmaps take the reader path exactly when a label is set or a mark is present; the "
          "reference streaming UTF-16LE/BE decoder gives utf16_to_utf8 of the whole input for every "
-         "fragmentation (code units and surrogate pairs split anywhere; lone surrogates, odd tail -> U+FFFD). "
+         "fragmentation (code units and surrogate pairs split anywhere; lone surrogates, odd tail -> U+FFFD) and is "
+         "proved equal to a declarative specification (bytes -> code units -> scalar values -> UTF-8), so the bytes "
+         "searched for UTF-16 input are proved to be its UTF-8 equivalent; the UTF-8 validator of -E utf-8 is "
+         "modelled and fragmentation independent. "
          "Tie to the code: the Coq decoder vs encoding_rs fed the same chunks; the bytes the real searcher "
          "sees (every strategy, fragmenting reader, roll-buffer capacities 1.., inputs beyond the 8 KiB "
          "transcoding buffer) vs the model and vs the reference transcoding computed with encoding_rs; rg "
          "stdout on encoded files vs on their transcodings (mmap, no mmap, stdin, -U).",
-    note="PARTIAL: encoding_rs / encoding_rs_io are third-party and only modelled (UTF-16) or sampled (UTF-8 "
-         "validation, windows-1252, shift_jis); the reduction of 'same results' to 'same searched bytes' rests on "
+    note="PARTIAL: encoding_rs / encoding_rs_io are third-party and only modelled (UTF-16, UTF-8 validation: compared "
+         "on every run; the UTF-8 model is not proved against a declarative spec) or sampled (windows-1252, shift_jis); the reduction of 'same results' to 'same searched bytes' rests on "
          "C02 (results independent of how bytes reach the searcher). Known findings: D14 (UTF-8 mark does not "
          "displace a label), a second mark after the mark is removed too, malformed UTF-8 after a UTF-8 mark is "
          "passed through unreplaced.",
@@ -147,7 +150,8 @@ def check_search_cases(ctx, cases, tmp, stats):
         mv = parse_val(mout) if mout.startswith("(") else None
         expected = [reference] + ([bz(mv[0][0])] if mv is not None and mv[0] != [] else [])
         # encoding_rs_io loses the tail of a U+FFFD flushed at EOF into a caller buffer of fewer than 4 bytes
-        truncated = c["capacity"] < 65536 and any(
+        # (multi-line: read_to_end hands the transcoder whatever spare capacity the Vec has, often < 4 bytes)
+        truncated = (c["capacity"] < 65536 or c["strategy"] >= 4) and any(
             len(e) >= 2 and (e[-1] & 0xC0) == 0x80 and searched in (e[:-1], e[:-2], e[:-3]) for e in expected)
         if truncated:
             cls = cls | {K_TRUNC}
@@ -170,14 +174,19 @@ def check_search_cases(ctx, cases, tmp, stats):
         # independence of strategy / fragmentation / capacity: same (mode, label, input) => same searched bytes
         key = (c["mode"], c["label"], c["input"])
         fragile = truncated or K_LEAD in cls or (c["mode"] == 1 and c["label"] == 4 and reference.endswith(b"\xef\xbf\xbd"))
+        # legacy multi-byte label: whether a dangling lead byte at EOF yields its U+FFFD depends on the call sequence
+        # (LegacyDanglingLeadAtEofDropped), so such inputs are compared modulo one trailing U+FFFD
+        norm = searched
+        if c["mode"] == 1 and c["label"] == 4 and norm.endswith(b"\xef\xbf\xbd"):
+            norm = norm[:-3]
         if fragile:
             pass
-        elif key in groups and groups[key][0] != searched:
+        elif key in groups and groups[key][0] != norm:
             ctx.violation("searched bytes depend on strategy / fragmentation / capacity",
                           dict(kind=1702, case=repr(c), other=repr(groups[key][1]), searched=repr(searched),
                                other_searched=repr(groups[key][0])))
         if not fragile:
-            groups.setdefault(key, (searched, c))
+            groups.setdefault(key, (norm, c))
         # link 2: the model's searched bytes (UTF-16 / identity cases)
         if mv is None:
             ctx.violation("model failed: " + mout[:60], dict(kind=1703, case=repr(c)), nfi=True)
@@ -234,6 +243,39 @@ def check_decoder_cases(ctx, rng, n, stats):
             ctx.violation("encoding_rs UTF-16 decoder output depends on the fragmentation", dict(kind=1701, line=l, code=c))
 
 
+def check_decoder8_cases(ctx, rng, n, stats):
+    """the UTF-8 decoder (validation, U+FFFD per maximal ill-formed subpart, mark removal): Coq vs encoding_rs"""
+    cases = []
+    pool = [b"a", b"\n", "é".encode(), "日".encode(), "😀".encode(), b"\xef\xbb\xbf", b"\xff", b"\xc0\xaf", b"\xe0\x80", b"\xed\xa0\x80",
+            b"\xf0\x8f", b"\xf4\x90", b"\xc3", b"\xe6\x97", b"\xf0\x9f\x98", b"\x80", b"\xbf", b"\xef\xbb", b"\xef", b"\xf5", b"\xe0\xa0\x80",
+            b"\xf4\x8f\xbf\xbf", b"\xed\x9f\xbf"]
+    for _ in range(n):
+        b = b"".join(rng.choice(pool) for _ in range(rng.randint(0, 8)))
+        if rng.random() < 0.3:
+            b = b"\xef\xbb\xbf" + b
+        chunks = []
+        p = 0
+        while p < len(b):
+            k = rng.choice([0, 1, 1, 1, 2, 3, 5])
+            chunks.append(b[p:p + k])
+            p += k
+        cases.append(chunks)
+    ml = [vlist([vlist([vbytes(c) for c in ch])]) for ch in cases]
+    cl = [vlist(["0", vlist([vbytes(c) for c in ch]), "1"]) for ch in cases]
+    mo = vlib.model(1705, ml)
+    co = vlib.code(1704, cl)
+    for ch, l, m, c in zip(cases, cl, mo, co):
+        ctx.note_case(l, len(ch) > 1)
+        stats["decoder8_cases"] += 1
+        mv = parse_val(m) if m.startswith("(") else None
+        cv = parse_val(c) if c.startswith("(") else None
+        if mv is None or cv is None or bz(mv[0]) != bz(cv[0]):
+            ctx.violation("UTF-8 decoder: Coq reference and encoding_rs disagree", dict(kind=1705, line=l, model=m, code=c), nfi=True)
+        elif bz(mv[0]) != bz(mv[1]):
+            ctx.violation("Coq UTF-8 decoder depends on the fragmentation (theorem utf8_chunk_independent broken?)",
+                          dict(kind=1705, line=l, model=m), nfi=True)
+
+
 def run_rg(args, cwd, stdin_path=None):
     fin = open(stdin_path, "rb") if stdin_path else subprocess.DEVNULL
     try:
@@ -287,12 +329,30 @@ def cli_cases(ctx, rng, cases, stats):
                     else:
                         ctx.violation("rg output on an encoded file (%s) differs from the output on its UTF-8 transcoding" % name,
                                       dict(kind="cli", case=repr(c), variant=name, out=repr(out[:500]), expected=repr(base[:500])))
-            # multi line: same matches as the transcoding under -U
-            rc1, o1 = run_rg(encflag + ["-U", "--no-mmap"] + pat + [enc_path], d)
-            rc2, o2 = run_rg(["-E", "none", "-U", "--no-mmap"] + pat + [ref_path], d)
-            if o1 != o2 and not cls:
-                ctx.violation("rg -U output on an encoded file differs from the output on its transcoding",
-                              dict(kind="cli", case=repr(c), out=repr(o1[:500]), expected=repr(o2[:500])))
+            # multi line with patterns that can match the terminator (MultiLine strategy: the whole file is read
+            # through the transcoder first): --mmap / --no-mmap / stdin / directory walk = search of the transcoding
+            wd = os.path.join(d, "w%d" % i)
+            os.mkdir(wd)
+            shutil.copy(enc_path, os.path.join(wd, "f"))
+            for mlpat in (["-e", "a\\nb"], ["-e", "\\n"], ["-e", "(?s)a.b"], pat):
+                rc2, o2 = run_rg(["-E", "none", "-U", "--no-mmap"] + mlpat + [ref_path], d)
+                for name, extra, target, stdin in (("mmap", ["--mmap"], [enc_path], None), ("no-mmap", ["--no-mmap"], [enc_path], None),
+                                                   ("stdin", [], [], enc_path), ("walk", ["--no-mmap"], [wd], None),
+                                                   ("walk-mmap", ["--mmap"], [wd], None)):
+                    rc1, o1 = run_rg(encflag + ["-U"] + extra + mlpat + target, d, stdin_path=stdin)
+                    stats["cli_runs_U"] += 1
+                    if o1 != o2:
+                        st = {"mmap": 6, "walk-mmap": 6, "stdin": 5}.get(name, 7)
+                        hv = parse_val(vlib.code(1702, [case_line(dict(c, strategy=st), d)])[0])
+                        hs, hr = bz(hv[0]), bz(hv[1])
+                        if hs != hr and hs in (hr[:-1], hr[:-2], hr[:-3]) and (hr[-1] & 0xC0) == 0x80:
+                            ctx.known(K_TRUNC, "rg -U on %r" % (c["input"][:40],))
+                        elif cls:
+                            for k in cls:
+                                ctx.known(k, "rg -U %s on %r" % (" ".join(encflag), c["input"][:40]))
+                        else:
+                            ctx.violation("rg -U %s (%s) on an encoded file differs from the output on its UTF-8 transcoding" % (mlpat[-1], name),
+                                          dict(kind="cli", case=repr(c), variant=name, pattern=mlpat[-1], out=repr(o1[:500]), expected=repr(o2[:500])))
     finally:
         shutil.rmtree(d, ignore_errors=True)
 
@@ -303,7 +363,7 @@ def gen_case(rng, big=False):
     label = rng.randint(0, 4)
     if mode == 1 and rng.random() < 0.6:
         label = {"u16le": 1, "u16be": 2, "u8bom": 0, "u8": 0, "latin1": 3, "sjis": 4, "raw": rng.randint(0, 4)}[kind]
-    return dict(mode=mode, label=label, input=inp, kind=kind, hist=gen_hist(rng, big), strategy=rng.randint(0, 3),
+    return dict(mode=mode, label=label, input=inp, kind=kind, hist=gen_hist(rng, big), strategy=rng.randint(0, 7),
                 capacity=rng.choice([1, 2, 3, 4, 7, 16, 64, 65536]), needle=rng.choice(NEEDLES))
 
 
@@ -320,8 +380,10 @@ def corpus():
         (0, 0, b"\xef\xbb\xbfa\xff\n"),               # malformed after a UTF-8 mark
         (1, 0, b"a\xff\n"), (1, 3, b"a\x80\x81\xe9\n"), (1, 4, b"\x82\xa0a\n\x81"),
         (1, 1, b"a\x00\n\x00\x00"), (1, 2, b"\xd8\x00\x00a"),
+        (0, 0, b"\xff\xfe" + "xa\nb\n".encode("utf-16-le")), (0, 0, b"\xfe\xff" + "a\nb".encode("utf-16-be")),
+        (0, 0, b"\xef\xbb\xbfa\nb\n"), (0, 0, b"\xef\xbb\xbf\n"),
     ]:
-        for strategy in range(4):
+        for strategy in range(8):
             for cap, hist in ((65536, []), (2, [1, 1, 1, 1, 1, 1]), (5, [3, 2])):
                 res.append(dict(mode=mode, label=label, input=inp, kind="corpus", hist=hist, strategy=strategy,
                                 capacity=cap, needle=b"a"))
@@ -335,20 +397,26 @@ def run(ctx):
     tmp = tempfile.mkdtemp(dir=vlib.CACHE, prefix="c17h-")
     try:
         check_decoder_cases(ctx, rng, ctx.count(1500), stats)
+        check_decoder8_cases(ctx, rng, ctx.count(1500), stats)
         check_search_cases(ctx, corpus(), tmp, stats)
         cases = []
         for _ in range(ctx.count(700)):
             c = gen_case(rng)
             cases.append(c)
             for _ in range(rng.choice([0, 1, 2])):        # the same input another way
-                cases.append(dict(c, hist=gen_hist(rng, False), strategy=rng.randint(0, 3),
+                cases.append(dict(c, hist=gen_hist(rng, False), strategy=rng.randint(0, 7),
                                   capacity=rng.choice([1, 2, 3, 4, 7, 16, 64, 65536])))
         for _ in range(ctx.count(12)):
             c = gen_case(rng, big=True)
             cases.append(c)
-            cases.append(dict(c, hist=gen_hist(rng, True), strategy=rng.randint(0, 3), capacity=rng.choice([3, 64, 65536])))
+            cases.append(dict(c, hist=gen_hist(rng, True), strategy=rng.randint(0, 7), capacity=rng.choice([3, 64, 65536])))
         check_search_cases(ctx, cases, tmp, stats)
-        cli = [c for c in corpus()[::12]] + [gen_case(rng) for _ in range(ctx.count(25))] + [gen_case(rng, big=True) for _ in range(ctx.count(2))]
+        marked = []
+        for bom, codec in ((b"\xff\xfe", "utf-16-le"), (b"\xfe\xff", "utf-16-be"), (b"\xef\xbb\xbf", "utf-8")):
+            for text in ("xa\nb\n", "a\nb", "b\n\na\n", "\u65e5a\nb\U0001f600\n"):
+                marked.append(dict(mode=0, label=0, input=bom + text.encode(codec), kind="corpus", hist=[], strategy=0,
+                                   capacity=65536, needle=b"a"))
+        cli = marked + [c for c in corpus()[::24]] + [gen_case(rng) for _ in range(ctx.count(25))] + [gen_case(rng, big=True) for _ in range(ctx.count(2))]
         cli = [c for c in cli if b"\x00" not in c["needle"]]
         cli_cases(ctx, rng, cli, stats)
     finally:
